@@ -18,6 +18,14 @@ RULE = ('SSH (quick, exhaustive grid on a recording paramiko.Transport reached t
         'another type, or not at all x pins x presented key, the arguments of every callback invocation and the .fingerprint of '
         'SSHUnknownHostError recorded and required to be (dialled host, fingerprint of the presented key); credential grid: key_filename lists (good/unreadable) x agent keys x default key files '
         'x password x every position of the first accepted request (and none) x subsystem/open/hello/kex verdicts. '
+        'histories (several NEW sessions of one process on ONE known_hosts path whose content changes between them): 2-4 connects x '
+        'the path (default ~/.ssh/known_hosts under a temporary HOME, a file handed to load_known_hosts(filename), a file named by '
+        'UserKnownHostsFile of ssh_config) x how the file was changed (rewritten; a prepared file with an OLDER / the SAME / a newer mtime and '
+        'the same size moved over it; rewritten through the same inode with the new or the restored mtime; symbolic link switched; removed; '
+        'created; left alone) x contents before/after (trust revoked, trust added, [host]:port, swapped entries, emptied) x what the earlier '
+        'session had as its reason to trust (file, accepting callback, pin, overriding profile, verification off) x random steps; every '
+        'connect is judged by the oracle and by the model (Auth.ssh_history) on the content of the file AT THE TIME OF THAT connect, as for a '
+        'fresh process; the same histories against the real paramiko server over a socketpair (66 in quick, 200+ in thorough). '
         'TLS (quick, exhaustive): missing host/certfile/protocol x check_hostname x ca_certs x server_hostname x '
         'load_cert/load_ca outcome x connect x handshake x hello on a recording SSLContext. '
         'thorough adds a real paramiko server over a socketpair and a real ssl server on 127.0.0.1 with openssl-generated PKI. '
@@ -286,6 +294,142 @@ def check_ssh(ctx, c, mo):
         ctx.fail(c, text, sig=None, expected='property C15 (%s)' % sig, actual=dict(events=im[0], result=code, exception=exn, exception_carries=detail))
     if ctx.evaluations % 1499 == 1: ctx.sample({'case': c, 'impl': im})
 
+# ------------------------------------------------------------------ histories: several sessions, ONE known_hosts path that changes
+# "matches known_hosts" is about the file AS IT IS WHEN connect() IS CALLED: every connect of a history is judged exactly as
+# the same connect made by a fresh process that sees the file's content of that moment (oracle and model get kh = that content).
+# What an earlier session of the process loaded / was shown / accepted must not matter, however the file was changed
+# (moved over by a prepared file with an older / the same / a newer mtime and the same size, rewritten through the same inode
+# with or without its mtime restored, removed, created, a symbolic link switched).
+HIST_OPS = ['write', 'replace_older', 'replace_equal', 'replace_newer', 'inplace', 'inplace_keep', 'symlink']
+HIST_VIAS = ['default', 'explicit', 'config']
+_GR = dict(password=True, auths=[True]); _RF = dict(password=True, auths=[False])
+
+def hstep(kh, op, **conn):
+    return dict(kh=kh, op=op, conn=conn)
+
+def hist_step_case(h, i):
+    s = h['steps'][i]
+    return ssh_case(kh=s['kh'], **s.get('conn', {}))
+
+def hist_model_call(h):
+    """Auth.ssh_history on the list of (configuration with the file content of that moment, oracle)"""
+    return [3, [ssh_model_call(hist_step_case(h, i))[1:] for i in range(len(h['steps']))]]
+
+def ssh_histories(tier, rng=None):
+    A, B, C = [('host', 'E1')], [('host', 'E2')], [('host', 'E3')]
+    pairs = [(A, B), (B, A), ([('hostport', 'E1')], [('hostport', 'E2')]), ([('hostport', 'E2')], [('host', 'E1')]),
+             ([('host', 'E1'), ('other', 'E2')], [('host', 'E2'), ('other', 'E1')]), (A, []), ([], A), (A, None), (None, A),
+             ([('host', 'R1')], A), (A, [('host', 'R1'), ('hostport', 'E2')])]
+    for via, op, (k1, k2), cr in itertools.product(HIST_VIAS, HIST_OPS, pairs, [_GR, _RF]):
+        if via == 'config' and (k1 is None or k2 is None): continue
+        if tier == 'quick' and cr is _RF and op in ('write', 'replace_newer', 'inplace'): continue
+        yield dict(kind='ssh_hist', via=via, steps=[hstep(k1, 'write', **_GR), hstep(k2, op, **cr)])
+    # three sessions: the file goes A -> B -> A / A -> B -> C, every pair of operations
+    for via, o2, o3, (k1, k2, k3) in itertools.product(HIST_VIAS, HIST_OPS, HIST_OPS, [(A, B, A), (B, A, B), (A, B, C)]):
+        if tier == 'quick' and via != 'default' and (k1, k2, k3) != (A, B, A): continue
+        yield dict(kind='ssh_hist', via=via, steps=[hstep(k1, 'write', **_RF), hstep(k2, o2, **_RF), hstep(k3, o3, **_GR)])
+    # trust given by something else than the file in an earlier session (accepting callback, pinned key, overriding profile,
+    # verification off) is not trust in a later one
+    for via, op, first in itertools.product(HIST_VIAS, ['keep', 'write', 'replace_equal', 'inplace_keep'],
+                                            [dict(user_cb=True, cb_verdict=True), dict(pin='E1'), dict(profile='iosxe'), dict(verify=False),
+                                             dict(user_cb=True, cb_policy=['fp', 'E1'])]):
+        for kh in (B, []):
+            yield dict(kind='ssh_hist', via=via, steps=[hstep(kh, 'write', **dict(first, **_RF)), hstep(kh, op, **_GR),
+                                                        hstep(kh, op, user_cb=True, cb_verdict=False, **_GR)])
+    if rng is not None:
+        few = ['default', 'iosxe', 'junos', 'nexus']
+        layouts = [None, [], A, B, C, [('hostport', 'E1')], [('hostport', 'E2')], [('other', 'E1')], [('host', 'R1')], [('host', 'E2'), ('hostport', 'E1')],
+                   [('host', 'E1'), ('hostport', 'E2')], [('host', 'E2'), ('host', 'E1')]]
+        for _ in range(250 if tier == 'quick' else 4000):
+            via = rng.choice(HIST_VIAS)
+            steps = []
+            for j in range(rng.randint(2, 4)):
+                kh = rng.choice(layouts[2:] if via == 'config' else layouts)
+                op = 'write' if j == 0 else rng.choice(HIST_OPS + ['keep'])
+                if op == 'keep': kh = steps[-1]['kh']
+                ucb = rng.random() < 0.3
+                pol = rng.choice(CB_POLICIES) if ucb and rng.random() < 0.5 else None
+                steps.append(hstep(kh, op, verify=rng.random() < 0.9, pin=rng.choice([None] * 5 + ['E1', 'E2']), user_cb=ucb, cb_policy=pol,
+                                   cb_verdict=ucb and rng.random() < 0.5, profile=rng.choice(few), server_key=rng.choice(['E1', 'E1', 'E2', 'E3', 'R1']),
+                                   **rng.choice([_GR, _RF])))
+            yield dict(kind='ssh_hist', via=via, steps=steps)
+
+def check_ssh_hist(ctx, h, mos):
+    """mos: output of Auth.ssh_history (one [events, result, detail] per session), an error string, or None"""
+    if isinstance(mos, str):
+        ctx.disagree(h, mos, None, 'model runner error', theorem='C15_fresh_judgement'); mos = None
+    kf = H().KnownHostsFile(h.get('via', 'default'))
+    try:
+        ctx.count(h); ctx.hist('hist_via', kf.via); ctx.hist('hist_sessions', len(h['steps']))
+        for i, s in enumerate(h['steps']):
+            kf.put(s['kh'], s['op'])
+            c = hist_step_case(h, i)
+            raw, code, exn, detail = H().run_ssh_fake(c, khfile=kf)
+            ctx.traces += 1
+            if i: ctx.hist('hist_file_changed_by', s['op'])
+            ctx.hist('hist_result', {0: 'Ok', 1: 'SSHUnknownHostError', 2: 'AuthenticationError', 3: 'SSHError'}.get(code, 'other:%s' % exn))
+            where = 'session %d of %d in one process (known_hosts%s now holds %s, brought there by "%s"): ' % (
+                i + 1, len(h['steps']), {'default': '', 'explicit': ' given to load_known_hosts', 'config': ' named by UserKnownHostsFile'}[kf.via], s['kh'], s['op'])
+            im = [impl_events(raw), code, detail]
+            mo = mos[i] if mos else None
+            if mo is not None:
+                evs, how, mcode, mdet = model_events(mo)
+                if [evs, mcode, mdet] != im:
+                    ctx.disagree(h, [evs, mcode, mdet], im, where + 'Auth.ssh_history (ssh_connect on the file content of that moment) vs the connect of that session',
+                                 theorem='C15_fresh_judgement/C15_reject/C15_verify_first')
+            for sig, text in ssh_oracle(c, raw, code, detail):
+                ctx.fail(h, where + text, sig=None, expected='property C15 (%s)' % sig,
+                         actual=dict(session=i + 1, events=im[0], result=code, exception=exn, exception_carries=detail))
+    finally:
+        kf.discard()
+
+def real_hstep(kh, op, **conn):
+    return dict(kh=kh, op=op, conn=conn)
+
+def real_hist_step_case(h, i):
+    s = h['steps'][i]
+    c = dict(kind='ssh_real', hostkey='ecdsa', verify=True, kh=s['kh'], pin=None, cb=None, password='right', keyfile=None, subsystem_ok=True)
+    c.update(s.get('conn', {}))
+    return c
+
+def real_ssh_histories(tier):
+    """the same on the real paramiko path: a real server (key E1) over a socketpair per session"""
+    W = dict(password='wrong')
+    pairs = [('host', 'different'), ('different', 'host'), ('hostport', 'different_hostport'), ('host', 'absent'), ('host', 'empty')]
+    if tier == 'quick':
+        grid = [(v, o, pr) for v, o, pr in itertools.product(HIST_VIAS, HIST_OPS, pairs[:3]) if o != 'write'] + \
+               [('default', 'write', pairs[3]), ('explicit', 'replace_older', pairs[3]), ('config', 'replace_equal', pairs[4])]
+    else:
+        grid = [(v, o, pr) for v, o, pr in itertools.product(HIST_VIAS, HIST_OPS, pairs) if not (v == 'config' and pr[1] == 'absent')]
+    for j, (via, op, (k1, k2)) in enumerate(grid):
+        yield dict(kind='ssh_hist_real', via=via, steps=[real_hstep(k1, 'write', **W), real_hstep(k2, op, **(W if j % 2 else {}))])
+    for via, (o2, o3) in itertools.product(HIST_VIAS, [('replace_older', 'replace_older'), ('replace_equal', 'inplace_keep')] if tier == 'quick'
+                                           else itertools.product(HIST_OPS[1:], HIST_OPS[1:])):
+        yield dict(kind='ssh_hist_real', via=via, steps=[real_hstep('host', 'write', **W), real_hstep('different', o2, **W), real_hstep('host', o3)])
+    # an accepting callback in the first session is not trust in the second
+    for via in HIST_VIAS:
+        yield dict(kind='ssh_hist_real', via=via, steps=[real_hstep('different', 'write', cb=True, **W), real_hstep('different', 'keep'),
+                                                         real_hstep('different', 'replace_equal', cb='only_stored')])
+
+def check_ssh_hist_real(ctx, h):
+    n = len(h['steps'])
+    cs = [real_hist_step_case(h, i) for i in range(n)]
+    def once():
+        kf = H().KnownHostsFile(h.get('via', 'default'))
+        try:
+            rs = []
+            for s, c in zip(h['steps'], cs):
+                kf.put(H().real_kh_entries(c), s['op'])
+                rs.append(H().run_ssh_real(c, khfile=kf))
+            return rs
+        finally:
+            kf.discard()
+    rs = retry3(once, lambda rs: not any(real_judge(c)[0](r) for c, r in zip(cs, rs)))
+    ctx.count(h); ctx.hist('real_hist_via', h.get('via', 'default'))
+    for i, (s, c, r) in enumerate(zip(h['steps'], cs, rs)):
+        if i: ctx.hist('real_hist_file_changed_by', s['op'])
+        real_report(ctx, h, c, r, where='session %d of %d in one process (known_hosts layout now "%s", brought there by "%s"): ' % (i + 1, n, s['kh'], s['op']))
+
 # ------------------------------------------------------------------ TLS (recording SSLContext)
 TLS_KEYS = ['host', 'certfile', 'protocol', 'check_hostname', 'ca', 'server_hostname', 'load_cert', 'load_ca', 'connect_ok', 'handshake_ok', 'hello_ok']
 def tls_cases():
@@ -362,7 +506,7 @@ def real_ssh_expect(c):
 
 def real_ssh_model(c, kex_ok=True):
     """the same case for the model (the server's key is E1, the other key of that type E2)"""
-    kh = {'absent': None, 'host': [('host', 'E1')], 'hostport': [('hostport', 'E1')], 'different': [('host', 'E2')],
+    kh = {'absent': None, 'empty': [], 'host': [('host', 'E1')], 'hostport': [('hostport', 'E1')], 'different': [('host', 'E2')],
           'different_hostport': [('hostport', 'E2')], 'different_both': [('host', 'E2'), ('hostport', 'E2')]}[c['kh']]
     pol = {'only_presented': ['fp', 'E1'], 'only_stored': ['fp', 'E2'], 'only_random': ['fp', 'X9']}.get(c['cb']) if isinstance(c['cb'], str) else None
     pin = {None: None, 'match': 'E1', 'different': 'E2'}[c['pin']]
@@ -381,12 +525,13 @@ def retry3(f, good):
         if good(r): return r
     return r
 
-def check_ssh_real(ctx, c, mo=None):
+def real_judge(c):
+    """The property sentence on what the real server saw, for one connect described by c.  Returns (judge, kex_failed, rsa_restricted)."""
     trusted, authed = real_ssh_expect(c)
     want_code = 1 if not trusted else (2 if not authed else (0 if c['subsystem_ok'] else 3))
     # O3: with an RSA key recorded for the host (or pinned) ssh.py asks for the host key algorithm "ssh-rsa" only, which
     # paramiko >= 4 cannot negotiate: SSHError("Negotiation failed") is then tolerated, the safety clauses are not relaxed
-    rsa_restricted = c.get('hostkey') == 'rsa' and bool(c['pin'] or (c['verify'] and c['kh'] != 'absent'))
+    rsa_restricted = c.get('hostkey') == 'rsa' and bool(c['pin'] or (c['verify'] and c['kh'] not in ('absent', 'empty')))
     def kex_failed(r): return r['code'] == 3 and 'Negotiation failed' in r['msg']
     def judge(r):
         bad = []
@@ -408,25 +553,35 @@ def check_ssh_real(ctx, c, mo=None):
         if r['code'] == 0 and b'<hello' not in r['bytes'].replace(b'nc:hello', b'hello'):
             bad.append(('no_hello_received', 'connected but the server did not receive the client hello (%d octets)' % len(r['bytes'])))
         return bad
-    r = retry3(lambda: H().run_ssh_real(c), lambda r: not judge(r))
-    ctx.count(c); ctx.traces += 1
+    return judge, kex_failed, rsa_restricted
+
+def real_report(ctx, case, c, r, where=''):
+    """oracle + model comparison for ONE connect c (observed: r) of the replayable case `case` (c itself, or a history containing c)"""
+    judge, kex_failed, rsa_restricted = real_judge(c)
+    ctx.traces += 1
     ctx.hist('real_ssh_result', (c.get('hostkey', 'ecdsa') + ':') + (r['exc'] or 'Ok') + (' (negotiation)' if kex_failed(r) else ''))
     obs = dict(server=[list(e) for e in r['server']], octets=len(r['bytes']), result=r['code'], exception=r['exc'], message=r['msg'],
                callback_called_with=r['cb_asked'], presented=r['presented'])
     for sig, text in judge(r):
-        ctx.fail(c, text, sig=None, expected='property C15 (%s)' % sig, actual=obs)
+        ctx.fail(case, where + text, sig=None, expected='property C15 (%s)' % sig, actual=obs)
     if ctx.model:
         # the library's key-exchange verdict is an oracle answer of the model
         mo = ctx.model.call(ssh_model_call(real_ssh_model(c, kex_ok=not (rsa_restricted and kex_failed(r)))))
-        if isinstance(mo, str): ctx.disagree(c, mo, obs, 'model runner error', theorem='C15_*'); return
+        if isinstance(mo, str): ctx.disagree(case, mo, obs, 'model runner error', theorem='C15_*'); return
         evs, _, mcode, _ = model_events(mo)
         m_asked = sum(1 for e in evs if e[0] == 'CallbackAsked')
         m_auth = [[{0: 'publickey', 3: 'password'}.get(e[1], '?'), e[3]] for e in evs if e[0] == 'Auth']
         i_auth = [[e[1], e[2]] for e in r['server'] if e[0] == 'auth' and e[1] != 'none']
         m_sub = [e[1] for e in evs if e[0] == 'Invoke']; i_sub = [e[1] for e in r['server'] if e[0] == 'subsystem']
         if [m_auth, m_sub, mcode, any(e[0] == 'SendHello' for e in evs), m_asked] != [i_auth, i_sub, r['code'], len(r['bytes']) > 0, len(r['cb_asked'])]:
-            ctx.disagree(c, [m_auth, m_sub, mcode, m_asked], [i_auth, i_sub, r['code'], len(r['bytes']), len(r['cb_asked'])],
-                         'Auth.ssh_connect vs SSHSession.connect against a real paramiko server', theorem='C15_verify_first/C15_reject/C15_auth_fail')
+            ctx.disagree(case, [m_auth, m_sub, mcode, m_asked], [i_auth, i_sub, r['code'], len(r['bytes']), len(r['cb_asked'])],
+                         where + 'Auth.ssh_connect vs SSHSession.connect against a real paramiko server', theorem='C15_verify_first/C15_reject/C15_auth_fail')
+
+def check_ssh_real(ctx, c, mo=None):
+    judge = real_judge(c)[0]
+    r = retry3(lambda: H().run_ssh_real(c), lambda r: not judge(r))
+    ctx.count(c)
+    real_report(ctx, c, c, r)
 
 def real_tls_cases():
     for cert, ca, ch, sh in itertools.product(['good', 'mismatch', 'wrongca', 'selfsigned'], ['ca1', 'ca2', None], [True, False],
@@ -476,6 +631,10 @@ def run_one(ctx, c, mo='call'):
     elif kind == 'tls':
         if mo == 'call': mo = ctx.model.call(tls_model_call(c)) if ctx.model else None
         check_tls(ctx, c, mo)
+    elif kind == 'ssh_hist':
+        check_ssh_hist(ctx, c, ctx.model.call(hist_model_call(c)) if (mo is not None and ctx.model) else None)
+    elif kind == 'ssh_hist_real':
+        check_ssh_hist_real(ctx, c)
     elif kind == 'ssh_real':
         check_ssh_real(ctx, c)
     elif kind == 'tls_real':
@@ -494,11 +653,16 @@ def run(ctx):
     sc = [dict(c, kind='ssh') for c in ssh_cases(ctx)]
     outs = ctx.model.batch([ssh_model_call(c) for c in sc]) if ctx.model else [None] * len(sc)
     for c, mo in zip(sc, outs): check_ssh(ctx, c, mo)
+    hs = list(ssh_histories(ctx.tier, ctx.rng))
+    outs = ctx.model.batch([hist_model_call(h) for h in hs]) if ctx.model else [None] * len(hs)
+    for h, mo in zip(hs, outs): check_ssh_hist(ctx, h, mo)
+    rh = list(real_ssh_histories(ctx.tier))
+    for h in rh: check_ssh_hist_real(ctx, h)
     tc = list(tls_cases())
     outs = ctx.model.batch([tls_model_call(c) for c in tc]) if ctx.model else [None] * len(tc)
     for c, mo in zip(tc, outs): check_tls(ctx, c, mo)
     ctx.exhaustive = True
-    ctx.extra['grid'] = dict(ssh_cases=len(sc), tls_cases=len(tc))
+    ctx.extra['grid'] = dict(ssh_cases=len(sc), tls_cases=len(tc), ssh_histories=len(hs), ssh_history_sessions=sum(len(h['steps']) for h in hs), real_ssh_histories=len(rh))
     if ctx.tier == 'thorough':
         rc = list(real_ssh_cases())
         for c in rc: check_ssh_real(ctx, c)
@@ -545,7 +709,7 @@ def search(ctx, seeds):
     few real-peer cases; return the first input on which the property sentence itself fails."""
     p = _Probe(None)
     ctx_like = type('T', (), {'tier': 'quick'})()
-    tries = list(seeds) + [dict(c, kind='ssh') for c in ssh_cases(ctx_like)] + list(tls_cases())
+    tries = list(seeds) + [dict(c, kind='ssh') for c in ssh_cases(ctx_like)] + list(tls_cases()) + list(ssh_histories('quick')) + list(real_ssh_histories('quick'))
     tries += list(itertools.islice(real_ssh_cases(), 0, None, 7)) + list(itertools.islice(real_tls_cases(), 0, None, 5))
     for c in tries:
         try:
